@@ -146,6 +146,75 @@ def convert(paths, per_module_max=None, stride=1, per_file_max=None):
     return runs, skipped
 
 
+def convert_balanced(paths, per_module_max):
+    """Like convert, but the sample is spread evenly over the runs of every L2 module (families with few runs are
+    not crowded out by the frequent ones): pass 1 reads the `new` lines only, pass 2 converts the chosen runs."""
+    index = {}       # module -> [(path, ordinal of the run in the file)]
+    for path in paths:
+        k = -1
+        with open(path) as f:
+            for line in f:
+                if line.startswith('{"e":"new"'):
+                    k += 1
+                    try:
+                        new = json.loads(line)
+                    except Exception:
+                        continue
+                    mod = FAM_MODULE.get(new.get("fam"))
+                    if mod:
+                        index.setdefault(mod, []).append((path, k))
+    chosen = {}
+    for mod, lst in index.items():
+        # oversample a little: some runs are skipped later (threads, extend on StreamGroup, ...)
+        want = min(len(lst), int(per_module_max * 1.6) + 8)
+        step = len(lst) / float(want)
+        for i in range(want):
+            pth, k = lst[int(i * step)]
+            chosen.setdefault(pth, set()).add(k)
+    runs, skipped = {}, {}
+    for path in paths:
+        sel = chosen.get(path, set())
+        if not sel:
+            continue
+        for k, evs in enumerate(split_runs(path)):
+            if k not in sel:
+                continue
+            r2, s2 = _convert_one(evs)
+            if r2 is None:
+                skipped[s2] = skipped.get(s2, 0) + 1
+                continue
+            mod, rec = r2
+            lst = runs.setdefault(mod, [])
+            if len(lst) < per_module_max:
+                lst.append(rec)
+    return runs, skipped
+
+
+def _convert_one(evs):
+    new = evs[0]
+    mod, cfg, why = cfg_for(new)
+    kinds = {e["e"] for e in evs}
+    if why is None:
+        if "tstart" in kinds:
+            why = "threaded run (order of concurrent wakes is not logged)"
+        elif "repoll" in kinds and (mod not in ("JoinLike", "Race", "Merge", "Zip", "Chain", "WaitUntil") or new["n"] == 0):
+            why = "poll after the final result (unspecified, not modelled)"
+        elif "skip" in kinds:
+            why = "vector skipped by the harness"
+        elif new["fam"] == "stream_group" and any(e["e"] == "insert" and e.get("key", 0) < 0 for e in evs):
+            why = "extend (members without a key) not modelled"
+        elif any(e["e"] == "panic" and e.get("at") not in ("poll", "repoll") for e in evs):
+            why = "panic outside poll"
+        elif evs[-1]["e"] != "end":
+            why = "truncated run (crash)"
+    if why is not None:
+        return None, why
+    ev = [e for e in evs if e["e"] not in SKIP_EV]
+    if new["fam"] == "co":
+        ev = [dict(e, wid=-7) if "wid" in e else e for e in ev]
+    return (mod, dict(id=new.get("id", "?"), cfg=cfg, ev=ev)), None
+
+
 def tlc_trace(mod, runfile, workdir, cfgname=None, workers=4, timeout=3600):
     env = dict(os.environ, TRACE=runfile, JAVA_TOOL_OPTIONS="-Xss1g")
     meta = os.path.join(workdir, "tl2_%s_%d" % (mod, os.getpid()))
